@@ -429,6 +429,47 @@ def pipeline(ctx):
         ev = fn_eval(P, t, [A('field'), A('opd')], sym=sym, choose=choose)
         if isinstance(ev.returned, Rat) and rat_eq(ev.returned, A('opd')):
             res.ok('no tilt correction for height fields')
+            # angular fields: the launch points lie on a plane; a ray launched
+            # at pupil height y = Py EPD/2 is ahead of the oblique wavefront by
+            # y sin(theta): path from the common wavefront = opd + Py EPD/2
+            # sin(theta_y)  (up to a constant of the field)
+            sym2 = Sym()
+
+            def inl2(call, ev):
+                if isinstance(call.func, ast.Attribute) and \
+                        call.func.attr == 'EPD':
+                    return A('EPD')
+                return None
+
+            def ch2(test, ev):
+                s_ = unparse(test)
+                if "field_type == 'angle'" in s_:
+                    return True
+                if 'is None' in s_:
+                    return False
+                return None
+            e2 = Ev(sym=sym2, inline=inl2, choose=ch2)
+            e2.env['field'] = (A('Hx'), A('Hy'))
+            e2.env['opd'] = A('opd')
+            e2.env['x'], e2.env['y'] = A('PX'), A('PY')
+            try:
+                e2.run(t.node.body)
+                r2 = e2.returned
+                ty = A('self.optic.fields.max_y_field') * A('Hy') * A('pi') / C(180)
+                want = sym2.sin(ty) * A('EPD') / C(2)
+                d = sym2.diff(r2, 'PY')
+                if sym2.eq(d, want) and sym2.eq(sym2.diff(r2, 'opd'), ONE):
+                    res.ok('angular fields: d(path)/dPy = +EPD/2 sin(theta_y), '
+                           'd(path)/d(opd) = 1')
+                else:
+                    res.fail(ctx.finding(
+                        'SAME-PIPELINE', t, t.node,
+                        f'oblique-wavefront correction: d(path)/dPy = {d}, '
+                        f'expected +EPD/2 sin(Hy max_y_field): paths are not '
+                        f'measured from a common wavefront in object space',
+                        construct='tilt derivative'))
+            except Inconclusive as e:
+                raise AnalysisError(f'_correct_tilt: {e}')
         else:
             res.fail(ctx.finding('SAME-PIPELINE', t, t.node,
                                  'tilt correction alters height-field paths',
